@@ -218,6 +218,14 @@ def run(prog: Program, rep: Report, tier: str):
         if term_to_poly(fa.sym.term(L2, n)) != Poly.const(1) - L:
             problems.append(f"the partner weight {ast.unparse(L2)} is not 1 - {ast.unparse(L1)}")
         ro, rp = roles.get(own), roles.get(partner)
+        if roles and not (ro and rp):
+            # through temporaries, converters and shape unification: which load does the operand come from?
+            load_role = {own_x[0][0]: ("x", "own"), own_c[0][0]: ("class", "own"), par_x[0][0]: ("x", "partner"),
+                         par_c[0][0]: ("class", "partner")}
+            ro = ro or _load_origin(fa, own_e, n, load_role)
+            rp = rp or _load_origin(fa, partner_e, n, load_role)
+            ro = None if ro == "no-new-information" else ro
+            rp = None if rp == "no-new-information" else rp
         if roles and not (ro and rp and ro[1] == "own" and rp[1] == "partner" and ro[0] == rp[0]):
             problems.append(f"'{own}' ({ro}) is mixed with '{partner}' ({rp}): not own and partner of the same item")
         base = _resolve_names(fa, L1, n)
@@ -235,6 +243,23 @@ def run(prog: Program, rep: Report, tier: str):
         ok = bool(unify) and all(cfg.must_pass(set(unify), src=cfg.entry, dst=m_[0]) for m_ in mixes)
         rep.decide(ok, "G6.convex-mix", fi, "unify-before-mix", "every mixing path passes the shape unification first",
                    "a mixing path bypasses the shape check / unification", clause="C11.3")
+
+    # ---- padding goes to the end ----------------------------------------------------------------------------------------
+    rep.rule("G6.pad-at-end", "in the 'pad_or_cut_end' unification every padding list handed to pad(..) carries its amounts in the "
+             "'after' slots only (odd positions of torch's (before, after) pairs, last dimension first); the 'before' slots are the "
+             "constant 0.  Decided for lists written as [0] * K + [amount] (K provably odd) and for lists grown from [] by pairs "
+             "[before, after]; other constructions are not decided")
+    for n, c in fa.calls():
+        fn_ = c.func
+        nm = fn_.id if isinstance(fn_, ast.Name) else (fn_.attr if isinstance(fn_, ast.Attribute) else None)
+        if nm != "pad":
+            continue
+        arg = next((k.value for k in c.keywords if k.arg == "pad"), c.args[1] if len(c.args) > 1 else None)
+        if arg is None:
+            continue
+        verdict, why = _pad_slots(fa, arg, n)
+        rep.decide(verdict, "G6.pad-at-end", fi, f"pad:{' '.join(ast.unparse(arg).split())[:40]}",
+                   why, why, line=c.lineno, clause="C11.3")
 
     # ---- label encoding -------------------------------------------------------------------------------------------------
     rep.rule("G8.label-one-hot", "on every normal return the label component was produced by to_one_hot_vector(<label loaded with "
@@ -330,3 +355,135 @@ def run(prog: Program, rep: Report, tier: str):
                    "; ".join(f"a return (line {ln}) hands out part of {w}" for ln, w in sorted(set(bad))) + ": the in-place label "
                    "mix of KDMixWrapper writes into that shared object", line=bad[0][0] if bad else f.node.lineno, clause="C11.4")
     names.check(prog, rep, FILES, clause="C11.G1", floor=6)
+
+
+def _load_origin(fa: FA, e: ast.AST, at: int, load_role, depth: int = 12, _seen=None):
+    """The load (x / class, own / partner) a mix operand stems from - through plain copies of locals, converter / unification
+    calls that take the value as their first argument or receiver (to_one_hot_vector(v, ..), pad(v, ..), v.index_select(..),
+    v.clone(), v[..]) - when all reaching definitions agree; None otherwise."""
+    _seen = set() if _seen is None else _seen
+    if depth <= 0 or e is None:
+        return None
+    if isinstance(e, ast.Call):
+        for n_, c_ in fa.calls():
+            if c_ is e and n_ in load_role:
+                return load_role[n_]
+        if isinstance(e.func, ast.Attribute) and not (isinstance(e.func.value, ast.Name) and e.func.value.id in (
+                "torch", "np", "F", "self")):
+            return _load_origin(fa, e.func.value, at, load_role, depth - 1, _seen)
+        if e.args:
+            return _load_origin(fa, e.args[0], at, load_role, depth - 1, _seen)
+        return None
+    if isinstance(e, ast.Subscript):
+        return _load_origin(fa, e.value, at, load_role, depth - 1, _seen)
+    if isinstance(e, ast.Name):
+        defs = fa.cfg.reaching().get(at, {}).get(e.id, ())
+        got = set()
+        for d in defs:
+            if fa.cfg.nodes[d].kind == "entry":
+                return None
+            if (e.id, d) in _seen:
+                continue  # a self-referential update (x2 = pad(x2, ..) in a loop): contributes nothing new
+            _seen.add((e.id, d))
+            v = fa.cfg.def_value(d, e.id)
+            got.add(_load_origin(fa, v, d, load_role, depth - 1, _seen) if v is not None else None)
+        got.discard("no-new-information")
+        if not got:
+            return "no-new-information"
+        return next(iter(got)) if len(got) == 1 else None
+    return None
+
+
+def _pad_slots(fa: FA, arg: ast.AST, at: int):
+    """-> (verdict, text) for one padding list.  Positions are counted from 0: even = 'before', odd = 'after'."""
+    def is_zero(e):
+        return isinstance(e, ast.Constant) and e.value == 0 and not isinstance(e.value, bool)
+
+    def odd(e, n) -> Optional[bool]:
+        p = term_to_poly(fa.sym.term(e, n))
+        c0 = p.const_value() if not p.atoms() else None
+        if c0 is not None:
+            return c0.denominator == 1 and int(c0) % 2 == 1
+        const = Poly.const(0)
+        # all non-constant coefficients even, constant part odd
+        ok_even = True
+        k0 = 0
+        for mono, coef in p.terms.items():
+            if coef.denominator != 1:
+                return None
+            if mono == ():
+                k0 = int(coef)
+            elif int(coef) % 2 != 0:
+                ok_even = False
+        if not ok_even:
+            return None
+        return k0 % 2 == 1
+    e = arg
+    node = at
+    if isinstance(e, ast.Name):
+        defs = [d for d in fa.cfg.reaching().get(at, {}).get(e.id, ()) if fa.cfg.nodes[d].kind != "entry"]
+        vals = [(d, fa.cfg.def_value(d, e.id), fa.cfg.nodes[d].ast) for d in defs]
+        grown = [(d, v, st) for d, v, st in vals if isinstance(st, ast.AugAssign) or (
+            isinstance(st, ast.Expr) and isinstance(st.value, ast.Call))]
+        inits = [(d, v, st) for d, v, st in vals if (d, v, st) not in grown]
+        name = e.id
+        if len(inits) == 1 and isinstance(inits[0][1], (ast.List,)) and not inits[0][1].elts:
+            # grown from []: every growth must add whole (before, after) pairs
+            steps = []
+            for n_, nd_ in fa.cfg.nodes.items():
+                st = nd_.ast if nd_.kind == "stmt" else None
+                if isinstance(st, ast.AugAssign) and isinstance(st.target, ast.Name) and st.target.id == name and \
+                        isinstance(st.op, ast.Add):
+                    steps.append((n_, st.value))
+                elif isinstance(st, ast.Expr) and isinstance(st.value, ast.Call) and isinstance(st.value.func, ast.Attribute) and \
+                        isinstance(st.value.func.value, ast.Name) and st.value.func.value.id == name:
+                    if st.value.func.attr == "extend" and st.value.args:
+                        steps.append((n_, st.value.args[0]))
+                    elif st.value.func.attr in ("append", "insert"):
+                        return None, "padding list grown element by element: slot positions not decided"
+            if not steps:
+                return None, "padding list of unrecognised construction"
+            for n_, v in steps:
+                if not (isinstance(v, (ast.List, ast.Tuple)) and len(v.elts) % 2 == 0 and v.elts):
+                    return None, "padding list grown by something other than (before, after) pairs: not decided"
+                for i, x in enumerate(v.elts):
+                    if i % 2 == 0 and not is_zero(x):
+                        return False, (f"the padding list is grown by {ast.unparse(v)} (line {fa.line(n_)}): the amount sits in a 'before' "
+                                       f"slot - the partner is padded at the start of the dimension, not at its end")
+            return True, "padding pairs are (0, amount): the partner is padded at the end"
+        if len(vals) == 1 and vals[0][1] is not None:
+            e, node = vals[0][1], vals[0][0]
+        else:
+            return None, "padding list of unrecognised construction"
+    # [0] * K + [amount] (+ ...)
+    parts = []
+
+    def flat(x):
+        if isinstance(x, ast.BinOp) and isinstance(x.op, ast.Add):
+            flat(x.left)
+            flat(x.right)
+        else:
+            parts.append(x)
+    flat(e)
+    pos_odd: Optional[bool] = False  # parity of the number of slots so far (False = even count: next slot is 'before')
+    for x in parts:
+        if isinstance(x, ast.BinOp) and isinstance(x.op, ast.Mult) and isinstance(x.left, ast.List) and len(x.left.elts) == 1 \
+                and is_zero(x.left.elts[0]):
+            k_odd = odd(x.right, node)
+            if k_odd is None or pos_odd is None:
+                pos_odd = None
+            else:
+                pos_odd = pos_odd != k_odd
+        elif isinstance(x, ast.List):
+            for y in x.elts:
+                if not is_zero(y):
+                    if pos_odd is None:
+                        return None, "slot position of the padding amount not decided"
+                    if pos_odd is False:
+                        return False, (f"the amount {ast.unparse(y)} sits in a 'before' slot of {ast.unparse(e)[:60]}: the partner is "
+                                       f"padded at the start of the dimension, not at its end")
+                if pos_odd is not None:
+                    pos_odd = not pos_odd
+        else:
+            return None, "padding list of unrecognised construction"
+    return True, "the padding amount sits in an 'after' slot: the partner is padded at the end"
